@@ -73,6 +73,33 @@ func init() {
 		"(*sync.Mutex).Lock":      modelLock(2, true),
 		"(*sync.Mutex).Unlock":    modelLock(2, false),
 	}
+	for name, size := range map[string]int64{"crypto/sha1.New": 20, "crypto/sha256.New": 32, "crypto/sha512.New384": 48, "crypto/sha512.New": 64, "crypto/md5.New": 16, "golang.org/x/crypto/md4.New": 16} {
+		size := size
+		goModels[name] = func(e *Exec, c *ssa.CallCommon, a []Val, in ssa.Instruction) (Val, bool) {
+			return e.newHash(BVLitI(size, 64)), true
+		}
+	}
+	goModels["crypto/hmac.New"] = func(e *Exec, c *ssa.CallCommon, a []Val, in ssa.Instruction) (Val, bool) {
+		h := e.toTerm(a[0], c.Args[0].Type())
+		return e.newHash(App("hashsize", BV(64), h)), true
+	}
+	goModels["(hash.Hash).Sum"] = func(e *Exec, c *ssa.CallCommon, a []Val, in ssa.Instruction) (Val, bool) {
+		e.trust("hash.Hash: Sum(b) returns a fresh slice of length len(b)+Size(); Write returns (len(p), nil); Size() is the digest size fixed at construction")
+		h, b := a[0].(*Term), a[1].(*Term)
+		r := e.allocRef("sum")
+		n, hs := elemHeap(types.Typ[types.Byte])
+		e.heapSet(n, Store(e.heapGet(n, hs), r, e.vc.Fresh("digest", ArraySort(BV(64), BV(8)))))
+		ln := e.vc.Define("sumlen", BVAdd(SlLen(b), App("hsize", BV(64), IfRef(h))))
+		return MkSlice(r, bv64zero, ln, ln), true
+	}
+	goModels["(hash.Hash).Write"] = func(e *Exec, c *ssa.CallCommon, a []Val, in ssa.Instruction) (Val, bool) {
+		e.trust("hash.Hash: Sum(b) returns a fresh slice of length len(b)+Size(); Write returns (len(p), nil); Size() is the digest size fixed at construction")
+		return Tuple{SlLen(a[1].(*Term)), NilIface}, true
+	}
+	goModels["(hash.Hash).Size"] = func(e *Exec, c *ssa.CallCommon, a []Val, in ssa.Instruction) (Val, bool) {
+		return App("hsize", BV(64), IfRef(a[0].(*Term))), true
+	}
+	goModels["(hash.Hash).Reset"] = func(e *Exec, c *ssa.CallCommon, a []Val, in ssa.Instruction) (Val, bool) { return nil, true }
 	for _, bo := range []struct {
 		name string
 		big  bool
@@ -283,4 +310,264 @@ func (e *Exec) lockCheck(p *Ptr, write bool) {
 	if e.onAccess != nil && !e.silent {
 		e.onAccess(e, p, write)
 	}
+}
+
+// newHash: a fresh hash object (interface value) whose digest size is sz.
+func (e *Exec) newHash(sz *Term) *Term {
+	e.trust("hash constructors (sha1/sha256/sha512/md5/md4.New, hmac.New) return a non-nil hash.Hash with the documented digest size")
+	r := e.allocRef("hash")
+	e.vc.Assume(True, Eq(App("hsize", BV(64), r), sz))
+	return MkIface(IntLit(typeID(types.Typ[types.UnsafePointer])+7), r)
+}
+
+// ---------- bytes.Buffer and encoding/binary.Read/Write over it (exact on the real struct fields) ----------
+
+func (e *Exec) bufferFields(p *Program) (si *StructInfo, iBuf, iOff int, t types.Type) {
+	t = p.lookupType("bytes.Buffer")
+	si = structInfo(t)
+	iBuf, iOff = -1, -1
+	for i, f := range si.Fields {
+		if f.Name == "buf" {
+			iBuf = i
+		}
+		if f.Name == "off" {
+			iOff = i
+		}
+	}
+	return
+}
+
+func init() {
+	goModels["bytes.NewBuffer"] = func(e *Exec, c *ssa.CallCommon, a []Val, in ssa.Instruction) (Val, bool) {
+		e.trust("bytes.Buffer: NewBuffer/Bytes/Len/Write exact on the buffer contents; binary.Read/Write of fixed-size integers and byte slices over a *bytes.Buffer exact")
+		si, iBuf, iOff, t := e.bufferFields(e.P)
+		if iBuf < 0 || iOff < 0 {
+			return nil, false
+		}
+		r := e.allocRef("buf")
+		v := FieldUpd(si, FieldUpd(si, zeroOf(t), iBuf, a[0].(*Term)), iOff, bv64zero)
+		n, hs := objHeap(t)
+		e.heapSet(n, Store(e.heapGet(n, hs), r, v))
+		return &Ptr{Kind: PHeap, Ref: r, Base: t, Typ: t, NonNil: true}, true
+	}
+	goModels["(*bytes.Buffer).Bytes"] = func(e *Exec, c *ssa.CallCommon, a []Val, in ssa.Instruction) (Val, bool) {
+		b, off, ok := e.bufState(a[0])
+		if !ok {
+			return nil, false
+		}
+		return e.vc.Define("bb", MkSlice(SlRef(b), BVAdd(SlOff(b), off), BVSub(SlLen(b), off), BVSub(SlCap(b), off))), true
+	}
+	goModels["(*bytes.Buffer).Len"] = func(e *Exec, c *ssa.CallCommon, a []Val, in ssa.Instruction) (Val, bool) {
+		b, off, ok := e.bufState(a[0])
+		if !ok {
+			return nil, false
+		}
+		return BVSub(SlLen(b), off), true
+	}
+	goModels["(*bytes.Buffer).Write"] = func(e *Exec, c *ssa.CallCommon, a []Val, in ssa.Instruction) (Val, bool) {
+		p := a[1].(*Term)
+		if !e.bufAppend(a[0], e.vc.Define("src", e.backing(p, types.Typ[types.Byte])), SlOff(p), SlLen(p)) {
+			return nil, false
+		}
+		return Tuple{SlLen(p), NilIface}, true
+	}
+	goModels["(*bytes.Buffer).WriteByte"] = func(e *Exec, c *ssa.CallCommon, a []Val, in ssa.Instruction) (Val, bool) {
+		arr := Store(ConstArr(ArraySort(BV(64), BV(8)), BVLitI(0, 8)), bv64zero, a[1].(*Term))
+		if !e.bufAppend(a[0], arr, bv64zero, BVLitI(1, 64)) {
+			return nil, false
+		}
+		return NilIface, true
+	}
+	goModels["encoding/binary.Write"] = modelBinaryWrite
+	goModels["encoding/binary.Read"] = modelBinaryRead
+}
+
+// bufState returns the buf slice and read offset of a *bytes.Buffer value.
+func (e *Exec) bufState(v Val) (*Term, *Term, bool) {
+	p, ok := v.(*Ptr)
+	if !ok {
+		return nil, nil, false
+	}
+	si, iBuf, iOff, _ := e.bufferFields(e.P)
+	if iBuf < 0 {
+		return nil, nil, false
+	}
+	sv := e.toTerm(e.quietLoad(p), p.Typ)
+	b := e.vc.Define("bbuf", FieldSel(si, sv, iBuf))
+	off := e.vc.Define("boff", FieldSel(si, sv, iOff))
+	// representation invariant of bytes.Buffer
+	e.vc.Assume(e.g, And(SGe(off, bv64zero), SLe(off, SlLen(b)), App("slice_ok", SBool, b, e.st.ac)))
+	return b, off, true
+}
+
+func (e *Exec) bufSet(v Val, buf, off *Term) {
+	p := v.(*Ptr)
+	si, iBuf, iOff, _ := e.bufferFields(e.P)
+	sv := e.toTerm(e.quietLoad(p), p.Typ)
+	nv := FieldUpd(si, sv, iBuf, buf)
+	if off != nil {
+		nv = FieldUpd(si, nv, iOff, off)
+	}
+	s := e.silent
+	e.silent = true
+	np := *p
+	np.NonNil = true
+	e.store(&np, nv)
+	e.silent = s
+}
+
+// bufAppend appends n bytes src[soff..] to the buffer (always into a fresh backing array: bytes.Buffer owns its storage).
+func (e *Exec) bufAppend(v Val, src, soff, n *Term) bool {
+	b, _, ok := e.bufState(v)
+	if !ok {
+		return false
+	}
+	el := types.Typ[types.Byte]
+	oldArr := e.vc.Define("old", e.backing(b, el))
+	base := e.copyInto(ConstArr(oldArr.Sort, BVLitI(0, 8)), bv64zero, oldArr, SlOff(b), SlLen(b), "bufc")
+	moved := e.copyInto(base, SlLen(b), src, soff, n, "bufa")
+	r := e.allocRef("bufarr")
+	e.setBacking(r, el, moved)
+	nl := e.vc.Define("nlen", BVAdd(SlLen(b), n))
+	e.vc.Assume(e.g, SLe(nl, maxLen))
+	e.bufSet(v, MkSlice(r, bv64zero, nl, nl), nil)
+	return true
+}
+
+var fixedIntKinds = map[types.BasicKind]int{types.Int8: 8, types.Uint8: 8, types.Int16: 16, types.Uint16: 16, types.Int32: 32, types.Uint32: 32, types.Int64: 64, types.Uint64: 64}
+
+// orderIsBig: the ByteOrder interface value is binary.BigEndian (tag comparison; the only other
+// implementation used is binary.LittleEndian).
+func (e *Exec) orderIsBig(order *Term) *Term {
+	bt := e.P.lookupType("encoding/binary.bigEndian")
+	if bt == nil {
+		return e.vc.Fresh("isbig", SBool)
+	}
+	return Eq(IfTag(order), IntLit(typeID(bt)))
+}
+
+func bufferOf(e *Exec, w Val, sv ssa.Value) (Val, bool) {
+	mi, ok := sv.(*ssa.MakeInterface)
+	if !ok {
+		return nil, false
+	}
+	if shortName(types.TypeString(mi.X.Type(), nil)) != "*bytes.Buffer" {
+		return nil, false
+	}
+	return e.val(mi.X), true
+}
+
+func modelBinaryWrite(e *Exec, c *ssa.CallCommon, a []Val, in ssa.Instruction) (Val, bool) {
+	buf, ok := bufferOf(e, a[0], c.Args[0])
+	if !ok {
+		return nil, false
+	}
+	mi, ok := c.Args[2].(*ssa.MakeInterface)
+	if !ok {
+		return nil, false
+	}
+	dt := types.Unalias(mi.X.Type())
+	isBig := e.orderIsBig(a[1].(*Term))
+	if bt, ok := dt.Underlying().(*types.Basic); ok {
+		w, ok := fixedIntKinds[bt.Kind()]
+		if !ok {
+			return nil, false
+		}
+		v := e.term(mi.X)
+		arr := ConstArr(ArraySort(BV(64), BV(8)), BVLitI(0, 8))
+		n := w / 8
+		for i := 0; i < n; i++ {
+			hi := w - 1 - i*8
+			by := Extract(v, hi, hi-7) // byte i of the big-endian form
+			le := Extract(v, i*8+7, i*8)
+			arr = Store(arr, BVLitI(int64(i), 64), Ite(isBig, by, le))
+		}
+		if !e.bufAppend(buf, e.vc.Define("enc", arr), bv64zero, BVLitI(int64(n), 64)) {
+			return nil, false
+		}
+		return NilIface, true
+	}
+	if isByteSlice(dt) {
+		p := e.term(mi.X)
+		if !e.bufAppend(buf, e.vc.Define("src", e.backing(p, types.Typ[types.Byte])), SlOff(p), SlLen(p)) {
+			return nil, false
+		}
+		return NilIface, true
+	}
+	return nil, false
+}
+
+func modelBinaryRead(e *Exec, c *ssa.CallCommon, a []Val, in ssa.Instruction) (Val, bool) {
+	buf, ok := bufferOf(e, a[0], c.Args[0])
+	if !ok {
+		return nil, false
+	}
+	mi, ok := c.Args[2].(*ssa.MakeInterface)
+	if !ok {
+		return nil, false
+	}
+	pt, ok := types.Unalias(mi.X.Type()).Underlying().(*types.Pointer)
+	if !ok {
+		return nil, false
+	}
+	dst, ok := e.val(mi.X).(*Ptr)
+	if !ok {
+		return nil, false
+	}
+	b, off, ok := e.bufState(buf)
+	if !ok {
+		return nil, false
+	}
+	isBig := e.orderIsBig(a[1].(*Term))
+	arr := e.vc.Define("rb", e.backing(b, types.Typ[types.Byte]))
+	avail := e.vc.Define("avail", BVSub(SlLen(b), off))
+	errT := e.havocTerm("err", c.Signature().Results().At(0).Type())
+	base := BVAdd(SlOff(b), off)
+	el := types.Unalias(pt.Elem())
+	if bt, ok := el.Underlying().(*types.Basic); ok {
+		w, ok := fixedIntKinds[bt.Kind()]
+		if !ok {
+			return nil, false
+		}
+		n := int64(w / 8)
+		enough := e.vc.Define("enough", SGe(avail, BVLitI(n, 64)))
+		var big, little *Term
+		for i := int64(0); i < n; i++ {
+			by := Select(arr, BVAdd(base, BVLitI(i, 64)))
+			if big == nil {
+				big, little = by, by
+			} else {
+				big = Concat(big, by)
+				little = Concat(by, little)
+			}
+		}
+		val := e.vc.Define("rd", Ite(isBig, big, little))
+		cur := e.toTerm(e.quietLoad(dst), el)
+		garbage := e.vc.Fresh("partial", cur.Sort)
+		s := e.silent
+		e.silent = true
+		e.store(dst, Ite(enough, val, Ite(Eq(avail, bv64zero), cur, garbage)))
+		e.silent = s
+		noff := e.vc.Define("noff", Ite(enough, BVAdd(off, BVLitI(n, 64)), SlLen(b)))
+		e.bufSet(buf, b, noff)
+		e.vc.Assume(True, Eq(Eq(IfTag(errT), IntLit(0)), enough))
+		return errT, true
+	}
+	if isByteSlice(el) {
+		ds := e.toTerm(e.quietLoad(dst), el)
+		n := SlLen(ds)
+		enough := e.vc.Define("enough", SGe(avail, n))
+		old := e.vc.Define("dold", e.backing(ds, types.Typ[types.Byte]))
+		full := e.copyInto(old, SlOff(ds), arr, base, n, "rdb")
+		partial := e.vc.Fresh("partial", old.Sort)
+		k := Sym("k", BV(64))
+		inR := And(SGe(k, SlOff(ds)), SLt(k, BVAdd(SlOff(ds), n)))
+		e.vc.Assume(True, Forall([][2]string{{"k", BV(64)}}, Implies(Not(inR), Eq(Select(partial, k), Select(old, k))), Select(partial, k)))
+		e.setBackingIf(And(Neq(SlRef(ds), IntLit(0)), SGt(n, bv64zero)), SlRef(ds), types.Typ[types.Byte], Ite(enough, full, partial))
+		noff := e.vc.Define("noff", Ite(enough, BVAdd(off, n), SlLen(b)))
+		e.bufSet(buf, b, noff)
+		e.vc.Assume(True, Eq(Eq(IfTag(errT), IntLit(0)), enough))
+		return errT, true
+	}
+	return nil, false
 }
